@@ -53,3 +53,13 @@ split=> // Ht Ha.
 have [_ [Hdet [Hr Hcl]]] := check_min_violator_spec _ _ _ _ _ (Hmin Ht Ha).
 split=> //; split=> i Hi; apply/tu_bfP; [exact: Hr | exact: Hcl].
 Qed.
+
+(* a "not TU" answer accepted by the oracle-free judge is certified for every size *)
+Lemma tu_cert_no_sound rec cfg m n (M : mat) rc sub rest :
+  tu_input rec = Some ((cfg, (m, n, M), rc, Z0, sub), rest) -> judge_tu_cert rec = Z0 ->
+  cfg_want_sub cfg = true -> ~ TUmx (mx_of m n M).
+Proof.
+move=> Hd Hj Hw; have [_ [_ [_ H0]]] := judge_tu_cert_sound _ _ _ _ _ _ _ _ _ Hd Hj.
+have [rs [cs [_ Hc]]] := H0 (erefl _) Hw.
+exact: (check_violator_sound Hc).
+Qed.
